@@ -81,6 +81,43 @@ def _bindings(fi: FuncInfo, name: str) -> List[Optional[ast.AST]]:
     return out
 
 
+def _is_plain_const(v: ast.AST) -> bool:
+    if isinstance(v, ast.Constant) and isinstance(v.value, (str, bytes, int, float, bool, type(None))):
+        return True
+    if isinstance(v, (ast.Tuple, ast.List, ast.Set)) and v.elts:
+        return all(_is_plain_const(x) for x in v.elts)
+    if isinstance(v, ast.Call) and q.dotted(v.func) == "frozenset" and len(v.args) == 1:
+        return _is_plain_const(v.args[0])
+    return False
+
+
+def module_const(fi: FuncInfo, name: str) -> Optional[ast.AST]:
+    """The literal a module-level (or, for ``self.X``/``cls.X``/``Class.X``, class-level) name is bound to, provided it
+    is bound exactly once at that level to a plain literal and no function of the module rebinds it (``global``)."""
+    mod = fi.module
+    if "." in name:
+        base, _, attr = name.rpartition(".")
+        cls = fi.cls if base in ("self", "cls") else mod.classes.get(base)
+        if cls is None:
+            return None
+        vals = [st.value for st in cls.body if isinstance(st, ast.Assign) and any(isinstance(t, ast.Name) and t.id == attr for t in st.targets)]
+        vals += [st.value for st in cls.body if isinstance(st, ast.AnnAssign) and isinstance(st.target, ast.Name) and st.target.id == attr and st.value is not None]
+        return vals[0] if len(vals) == 1 and _is_plain_const(vals[0]) else None
+    tops = [st for st in mod.tree.body if (isinstance(st, ast.Assign) and any(isinstance(t, ast.Name) and t.id == name for t in st.targets)) or (isinstance(st, ast.AnnAssign) and isinstance(st.target, ast.Name) and st.target.id == name and st.value is not None)]
+    if len(tops) != 1 or not _is_plain_const(tops[0].value):
+        return None
+    cache = getattr(mod, "_g2_globals", None)
+    if cache is None:
+        cache = {nm for n in ast.walk(mod.tree) if isinstance(n, ast.Global) for nm in n.names}
+        try:
+            mod._g2_globals = cache
+        except Exception:
+            pass
+    if name in cache:
+        return None
+    return tops[0].value
+
+
 def unique_def(fi: FuncInfo, name: str) -> Optional[ast.AST]:
     bs = _bindings(fi, name)
     if len(bs) == 1 and bs[0] is not None and not q.has_suspension(bs[0]):
@@ -91,6 +128,7 @@ def unique_def(fi: FuncInfo, name: str) -> Optional[ast.AST]:
 def expand(fi: FuncInfo, e: ast.AST, depth: int = 5, keep=()) -> ast.AST:
     """``keep``: names that must stay names (e.g. match objects whose ``.group(k)`` the rule wants to see)."""
     cache: Dict[str, Optional[ast.AST]] = {k: None for k in keep}
+    locs = q.local_names(fi.node) | set(fi.params())
 
     class T(ast.NodeTransformer):
         def __init__(self, d, seen):
@@ -101,7 +139,10 @@ def expand(fi: FuncInfo, e: ast.AST, depth: int = 5, keep=()) -> ast.AST:
             if not isinstance(node.ctx, ast.Load) or self.d <= 0 or node.id in self.seen:
                 return node
             if node.id not in cache:
-                cache[node.id] = unique_def(fi, node.id)
+                d_ = unique_def(fi, node.id)
+                if d_ is None and node.id not in locs:
+                    d_ = module_const(fi, node.id)
+                cache[node.id] = d_
             v = cache[node.id]
             if v is None:
                 return node
@@ -236,8 +277,52 @@ def normalise(fi: FuncInfo) -> FuncInfo:
             st = _SubstNames(mapping).visit(st)
             new_body.append(st)
         node.body = new_body
+    # N4: names of module-level literals (constants hoisted out of the function) are replaced by the literal
+    locs2 = q.local_names(node) | set(fi.params())
+
+    class Consts(ast.NodeTransformer):
+        def visit_Name(self, n):
+            if isinstance(n.ctx, ast.Load) and n.id not in locs2:
+                c = module_const(fi, n.id)
+                if c is not None:
+                    return ast.copy_location(copy.deepcopy(c), n)
+            return n
+
+        def visit_Attribute(self, n):
+            d = q.dotted(n)
+            if d is not None and isinstance(n.ctx, ast.Load) and d.count(".") == 1 and d.split(".")[0] in ("self", "cls"):
+                c = module_const(fi, d)
+                if c is not None and not q.stores_to(node, d):
+                    return ast.copy_location(copy.deepcopy(c), n)
+            return self.generic_visit(n)
+
+    node.body = [Consts().visit(st) for st in node.body]
     ast.fix_missing_locations(node)
     return FuncInfo(fi.module, fi.qualname, node, fi.cls, fi.parent)
+
+
+def concat_pieces(e: ast.AST) -> Optional[List[ast.AST]]:
+    """Pieces of a string built by concatenation, in order: ``a + b + c``, ``"".join([a, b, c])`` (empty separator),
+    an f-string (constant parts and ``{expr}`` holes without format spec).  None when ``e`` is not of that kind."""
+    if isinstance(e, ast.BinOp) and isinstance(e.op, ast.Add):
+        l, r = concat_pieces(e.left) or [e.left], concat_pieces(e.right) or [e.right]
+        return l + r
+    if isinstance(e, ast.Call) and isinstance(e.func, ast.Attribute) and e.func.attr == "join" and isinstance(e.func.value, ast.Constant) and e.func.value.value in ("", b"") and len(e.args) == 1 and isinstance(e.args[0], (ast.List, ast.Tuple)):
+        out: List[ast.AST] = []
+        for x in e.args[0].elts:
+            out += concat_pieces(x) or [x]
+        return out
+    if isinstance(e, ast.JoinedStr):
+        out = []
+        for v in e.values:
+            if isinstance(v, ast.Constant):
+                out.append(v)
+            elif isinstance(v, ast.FormattedValue) and v.format_spec is None and v.conversion == -1:
+                out.append(v.value)
+            else:
+                return None
+        return out
+    return None
 
 
 # ---------------------------------------------------------------------------
@@ -255,6 +340,9 @@ def callee(repo: Repo, fi: FuncInfo, call: ast.Call) -> Optional[FuncInfo]:
             return mod.funcs.get("%s.%s" % (clsname, f.attr))
         if f.value.id in mod.classes:
             return mod.funcs.get("%s.%s" % (f.value.id, f.attr))
+        for rel, m in repo.modules.items():   # othermodule.func(..)
+            if rel.endswith("/" + f.value.id + ".py") and f.attr in m.funcs:
+                return m.funcs[f.attr]
     return None
 
 
@@ -344,6 +432,18 @@ def widen_facts(fi: FuncInfo, facts, max_variants: int = 24) -> Set[Tuple[str, b
     definition and the test (single-definition locals)."""
     out: Set[Tuple[str, bool]] = set(facts)
     out |= set(named_bool_facts(fi, out))
+    for t, pol in list(out):   # len(x) > 0 / != 0 / == 0  <=>  truthiness of x
+        if t.startswith("len("):
+            try:
+                e = ast.parse(t, mode="eval").body
+            except SyntaxError:
+                continue
+            if isinstance(e, ast.Compare) and len(e.ops) == 1 and q.is_call(e.left, "len") and len(e.left.args) == 1 and q.is_const(e.comparators[0], 0):
+                x = q.unparse(e.left.args[0])
+                if isinstance(e.ops[0], ast.Eq):
+                    out.add((x, not pol))
+                elif isinstance(e.ops[0], ast.Gt):
+                    out.add((x, pol))
     work = [f for f in out if not f[0].startswith("@")]
     seen = set(work)
     produced = 0
@@ -646,3 +746,27 @@ def install_prepared(ck, module_file: str, depth: int = 3):
     ck.func = func
     ck.prepare = lambda fi: prepared(ck.repo, fi, keep, depth)
     return keep
+
+
+def lazy_widened(fi: FuncInfo, base=None):
+    """dict-like: node id -> widen_facts(must_facts) computed on demand."""
+    from .cfg import must_facts
+
+    mf = base if base is not None else must_facts(fi.cfg)
+
+    class _Lazy(dict):
+        def __missing__(self, k):
+            self[k] = widen_facts(fi, mf[k])
+            return self[k]
+
+    return _Lazy()
+
+
+def call_arg(repo: Repo, fi: FuncInfo, call: ast.Call, index: int, name: str) -> Optional[ast.AST]:
+    """Argument of ``call`` for the parameter at ``index`` / called ``name`` (positional or keyword form)."""
+    if index < len(call.args) and not any(isinstance(a, ast.Starred) for a in call.args[:index + 1]):
+        return call.args[index]
+    for k in call.keywords:
+        if k.arg == name:
+            return k.value
+    return None
